@@ -96,6 +96,7 @@ func rulesC10(c *Ctx) {
 		c.OK("C10.exactint", "getTimeRange: integer-to-float conversions", g.Pos(), fmt.Sprintf("%d", n))
 	}
 	sentinelsC10(c)
+	exactTimeRule(c, "C10.exacttime", "ConditionExpr", "conditionExpr", "reduce")
 	residualC10(c, ce)
 	// the residual is built through reduce: its boolean short-cuts decide
 	// whether `x OR false`, `true AND x` keep x
@@ -567,6 +568,46 @@ func residualC10(c *Ctx, ce *ssa.Function) {
 		c.Unk("C10.residual", "conditionExpr: recursive calls", ce.Pos(), "the AND/OR arm does not recurse on LHS and RHS")
 		return
 	}
+	// every successful return of the arm hands back the intersection of both
+	// sides' ranges
+	nr := 0
+	for _, b := range ce.Blocks {
+		ret, ok := b.Instrs[len(b.Instrs)-1].(*ssa.Return)
+		if !ok || len(ret.Results) != 3 || !rcall.Block().Dominates(b) {
+			continue
+		}
+		if k, isC := ret.Results[2].(*ssa.Const); !isC || !k.IsNil() {
+			continue
+		}
+		nr++
+		key := fmt.Sprintf("conditionExpr: AND/OR arm, successful return #%d: time range", nr)
+		side := func(v ssa.Value) string {
+			if ex, ok := v.(*ssa.Extract); ok && ex.Index == 1 {
+				if ex.Tuple == ssa.Value(lcall) {
+					return "L"
+				}
+				if ex.Tuple == ssa.Value(rcall) {
+					return "R"
+				}
+			}
+			return ""
+		}
+		tr := ret.Results[1]
+		if call, ok := tr.(*ssa.Call); ok {
+			if cal := call.Call.StaticCallee(); cal != nil && cal.Name() == "Intersect" && len(call.Call.Args) == 2 {
+				a, bb := side(call.Call.Args[0]), side(call.Call.Args[1])
+				if a != "" && bb != "" && a != bb {
+					c.OK("C10.residual", key, ret.Pos(), "Intersect of the left and the right side's ranges")
+					continue
+				}
+			}
+		}
+		if sd := side(tr); sd != "" {
+			c.Bad("C10.residual", key, ret.Pos(), "returns the "+sd+" side's range alone: a bound found on the other side (`(time > a AND true) AND time < b`) is lost")
+			continue
+		}
+		c.Unk("C10.residual", key, ret.Pos(), "the returned range is not recognisably the intersection of both sides' ranges")
+	}
 	binT := p.Named("BinaryExpr")
 	for _, ln := range []bool{true, false} {
 		for _, rn := range []bool{true, false} {
@@ -725,3 +766,64 @@ func passthroughC10(c *Ctx, ce *ssa.Function) {
 	}
 	c.Floor("C10.passthrough", n, 1)
 }
+
+// exactTimeRule: within the package functions reachable from the given roots,
+// instants are moved and compared with exact operations only. Calendar or
+// rounding arithmetic (AddDate, Truncate, Round, Local) gives a different
+// instant than the written `time ± duration` in zones with DST shifts.
+func exactTimeRule(c *Ctx, rule string, roots ...string) {
+	p := c.P
+	c.Rule(rule, "the constant folds and the range extraction move and compare instants with exact operations only (Time.Add/Sub/Equal/Before/After/UTC/In/UnixNano...): `time - 24h` is the instant 86400s earlier, never a calendar day earlier in some zone (AddDate), nor a rounded one (Truncate/Round)")
+	exact := map[string]bool{"Add": true, "Sub": true, "Equal": true, "Before": true, "After": true, "UTC": true, "In": true, "UnixNano": true, "Unix": true, "IsZero": true, "Format": true, "Nanosecond": true, "Location": true, "Compare": true, "String": true, "AppendFormat": true}
+	inexact := map[string]bool{"AddDate": true, "Truncate": true, "Round": true, "Local": true}
+	seen := map[*ssa.Function]bool{}
+	n := 0
+	counts := map[string]int{}
+	nth := func(k string) int { counts[k]++; return counts[k] }
+	var visit func(f *ssa.Function)
+	visit = func(f *ssa.Function) {
+		if f == nil || seen[f] || f.Pkg != p.SPkg {
+			return
+		}
+		seen[f] = true
+		for _, a := range f.AnonFuncs {
+			visit(a)
+		}
+		for _, b := range f.Blocks {
+			for _, in := range b.Instrs {
+				call, ok := in.(*ssa.Call)
+				if !ok {
+					continue
+				}
+				cal := call.Call.StaticCallee()
+				if cal == nil {
+					continue
+				}
+				visit(cal)
+				recv := cal.Signature.Recv()
+				if recv == nil || cal.Pkg == nil || cal.Pkg.Pkg.Path() != "time" || !strings.HasSuffix(recv.Type().String(), "time.Time") {
+					continue
+				}
+				n++
+				key := fmt.Sprintf("%s: Time.%s #%d", ssaFuncName(f), cal.Name(), nth(ssaFuncName(f)+cal.Name()))
+				switch {
+				case exact[cal.Name()]:
+					c.OK(rule, key, call.Pos(), "exact")
+				case inexact[cal.Name()]:
+					c.Bad(rule, key, call.Pos(), "calendar/rounding arithmetic on an instant: the folded bound differs from the written one by the zone's DST shift (or the rounding)")
+				default:
+					c.Unk(rule, key, call.Pos(), "a time.Time method this rule does not classify")
+				}
+			}
+		}
+	}
+	for _, name := range roots {
+		if i := strings.Index(name, "."); i > 0 {
+			visit(p.SSAFunc(p.Method(name[:i], name[i+1:])))
+		} else {
+			visit(p.SSAFunc(p.Func(name)))
+		}
+	}
+	c.Floor(rule, n, 8)
+}
+
